@@ -77,6 +77,41 @@ def check_case(ctx, case):
     b = impl.canon_record(out << k, rid=3)
     if a.seq != b.seq or denot(a.feats, n) != denot(b.feats, n) or readings(a.feats, n) != readings(b.feats, n):
         ctx.fail("rc(r >> {0}) differs from rc(r) << {0}".format(k), case)
+    # less common GenBank locations: a part that lies in another entry (`J00194.1:5..12`: not a stretch of this plasmid,
+    # left alone by rotation and reverse complement), and positions given as `(3.6)`, `one-of(9,11)`, `8^10`-style
+    # ranges: read as the integers they stand for
+    if n >= 8 and (ctx.evaluations % 4 == 1 or case.get("exotic")):
+        from Bio.SeqFeature import (SeqFeature, SimpleLocation, CompoundLocation, WithinPosition, OneOfPosition,
+                                    BetweenPosition, ExactPosition)
+        rx = impl.mk_record(CRec(3, wd, [], []))
+        a_, b_ = 1, n - 2
+        rx.features = [
+            SeqFeature(CompoundLocation([SimpleLocation(5, 12, 1, ref="J00194.1"), SimpleLocation(a_, a_ + 3, 1)]),
+                       type="misc_feature", qualifiers={"label": ["x1"]}),
+            SeqFeature(SimpleLocation(WithinPosition(a_, left=a_, right=a_ + 2), b_, 1), type="misc_feature", qualifiers={"label": ["x2"]}),
+            SeqFeature(SimpleLocation(a_ + 1, OneOfPosition(b_, [ExactPosition(b_), ExactPosition(b_ + 1)]), -1),
+                       type="misc_feature", qualifiers={"label": ["x3"]}),
+            SeqFeature(SimpleLocation(BetweenPosition(n - 4, left=n - 4, right=n - 2), n, 1), type="misc_feature", qualifiers={"label": ["x4"]})]
+
+        def xview(rec_):
+            out_ = {}
+            for f_ in rec_.features:
+                lab_ = f_.qualifiers["label"][0]
+                out_[lab_] = ([(int(p_.start), int(p_.end), p_.strand, p_.ref) for p_ in f_.location.parts if p_.ref],
+                              sorted((t_ % n, p_.strand) for p_ in f_.location.parts if not p_.ref
+                                     for t_ in range(int(p_.start), int(p_.end))))
+            return out_
+        try:
+            xa, xb = xview((rx >> k).reverse_complement()), xview(rx.reverse_complement() << k)
+            if xa != xb:
+                lab_ = next(l_ for l_ in xa if xa[l_] != xb.get(l_))
+                ctx.fail("rc(r >> {0}) differs from rc(r) << {0} for a feature with a less common location ({1}): {2} vs {3}".format(
+                    k, lab_, xa[lab_], xb.get(lab_)), dict(case, exotic=True))
+            elif xa["x1"][0] != [(5, 12, 1, "J00194.1")]:
+                ctx.fail("a location part that lies in another entry (J00194.1:5..12) comes out as {}".format(xa["x1"][0]), dict(case, exotic=True))
+        except Exception as e:  # noqa
+            ctx.fail("rotation / reverse complement of a record with less common locations raises {}: {}".format(
+                type(e).__name__, str(e)[:80]), dict(case, exotic=True))
     # the arguments in the order SeqRecord.reverse_complement declares them (a drop-in replacement is called positionally
     # too): id, name, description, features, annotations, letter_annotations, dbxrefs
     if n >= 1 and ctx.evaluations % 3 == 0:
